@@ -591,7 +591,32 @@ func iiWire(m *hmap.IntIntMap, md *iiModel, op Op) error {
 	if ret := m2.ToObject(wio.NewDataInputX(b)); ret != m2 {
 		return fmt.Errorf("ToObject does not return its receiver")
 	}
-	return iiSame("ToObject(ToBytes(m))", m2, md)
+	if err := iiSame("ToObject(ToBytes(m))", m2, md); err != nil {
+		return err
+	}
+	// read into a map that already holds entries (a counter map that accumulates what several agents report): the
+	// entries read are put on top of what is there (seed C12-s23)
+	m3 := hmap.NewIntIntMapDefault()
+	if op.C%2 == 1 {
+		m3 = hmap.NewIntIntMap(op.C, op.L)
+	}
+	m3.NONE = md.none
+	md3 := &iiModel{m: map[int32]int32{}, none: md.none}
+	for i := int32(0); i < 5; i++ {
+		k := 7000000 + i*101
+		m3.Put(k, i+1)
+		md3.m[k] = i + 1
+	}
+	for k, v := range md.m { // one key of the serialized map is there already, with another value
+		m3.Put(k, v^0x55)
+		md3.m[k] = v ^ 0x55
+		break
+	}
+	m3.ToObject(wio.NewDataInputX(b))
+	for k, v := range md.m {
+		md3.m[k] = v
+	}
+	return iiSame(fmt.Sprintf("ToObject(ToBytes(m)) into a map that held 5-6 entries (%d entries read)", len(md.m)), m3, md3)
 }
 
 func runII(c IICase) *pbt.Result {
@@ -1668,6 +1693,8 @@ func TestBoundaries(t *testing.T) {
 		{K: "add", A: 4, V: math.MaxInt32}, {K: "add", A: 4, V: math.MaxInt32}, {K: "addifexist", A: 99, V: 1}, {K: "addifexist", A: 4, V: 2},
 		{K: "put", A: math.MinInt32, V: -1}, {K: "put", A: -1, V: math.MinInt32}, {K: "enum"}, {K: "enumobj"}, {K: "keyarray"}, {K: "valuearray"},
 		{K: "sort", B: true}, {K: "tostring"}, {K: "wire", C: 1, L: 0.1}, {K: "containsvalue", V: -1}, {K: "containsvalue", V: 12345}, {K: "clear"}, {K: "wire", C: 5, L: 4}}})
+	// a serialized map with more entries than the receiver's growth threshold, read into a receiver that is not empty
+	specII.RunCase(t, IICase{Ops: []Op{{K: "putrange", A: -50, St: 3, N: 120}, {K: "wire", C: 4, L: 0.75}, {K: "putrange", A: 1000, St: 1, N: 80}, {K: "wire", C: 3, L: 1}}})
 	specIK.RunCase(t, IKCase{Cap: 2, LF: 2, Ops: []Op{
 		{K: "putrange", A: 0, St: 5, N: 12}, {K: "put", A: -7, V: 1, B: true}, {K: "removerange", A: 0, St: 10, N: 6}, {K: "keyarray"}, {K: "enum"},
 		{K: "containsvalue", V: 1, B: true}, {K: "containsvalue", V: 3}, {K: "containsvalue", V: 77},
